@@ -104,6 +104,11 @@ def run(prop, tier, replay=None):
     if validated != len(records):
         raise ToolError(f"trace validation consumed {validated} of {len(records)} records")
     byid = {r["id"]: r for r in records}
+    det_total = sum(1 for r in records for t in r["hist"] if t["detached"])
+    det_seen = sum(1 for r in records for t, o in zip(r["hist"], r["obs"]) if t["detached"] and isinstance(o, dict) and "vars" in o)
+    if det_total and det_seen * 2 < det_total:
+        print(f"DRIFT property={prop} only {det_seen} of {det_total} detached test cases wrote their probe file and were judged")
+    cov["detached_test_cases_observed"] = f"{det_seen} of {det_total}"
     if printed["TOOL"]:
         r = byid[printed["TOOL"][0][1]]
         raise ToolError(f"my model of bash disagrees with a real single bash session for {len(printed['TOOL'])} histories, e.g. {json.dumps(r['hist'])[:400]} single={json.dumps(r['single'])[:400]}")
